@@ -60,6 +60,10 @@ checks = {
   "Steps a map model (id -> bytes) with insert/overwrite/delete/write+load histories on the real WritableFractalHeap around the block capacity; after every operation all live ids are read back, ids checked for distinctness/disjointness, header counters compared, and persisted heaps are re-read through the read-only and the writable loader.",
   "Free-space judged by the writer's own accounting rule; multi-block heaps are a recorded open finding.",
   TECH + ": executable map model over real heap executions"),
+ "C16": ("exploration",
+  "Twin runs: a history with 1-18 calls chosen to fail (catalogue of 40 kinds: invalid names, missing parents, bad shapes/chunks/max-dims/options, wrong-length or wrong-type writes, bad resizes, unsupported attribute values, over-long names, duplicate or dangling links, calls beyond group-entry / name-heap capacity, calls on the closed writer and its handles, repeated Close) against the same history without them; compares every later call's outcome and the reopened content through the library reader and an independent decoder (tree, reference counts, header message lists, raw data, attribute bytes); any panic is a violation.",
+  "Inserted calls that succeed are moved into the reference run (not alarms); orphaned allocations are not content.",
+  TECH + ": differential twin runs over real executions, two independent observers"),
  "C19": ("exploration",
   "Part B: drives ConfigSelector / SmartRebalancer.Evaluate with scripted and rule-based decisions under an injected clock and checks every returned decision against a reference gate model (allowed list, confidence fallback, confidence range, stability period). Part A: twin runs of attribute histories under rebalancing configurations vs the default configuration, dumps compared.",
   "ModeNone always permitted; stability judged on non-decreasing clocks.",
